@@ -83,7 +83,13 @@ func (r *validationResponseHandler) HandleValidationResponse(
 		updateStoredHeaders(ctx.Stored.Data, resp)
 		// Freshen the stored response (RFC 9111 §4.3.4): write the merged entry
 		// back with the 304's request/response times so that its age restarts.
-		if r.rs != nil {
+		// (not when the request or the freshened response forbids storing).
+		if r.rs != nil && r.ce != nil &&
+			r.ce.CanStoreResponse(
+				ctx.Stored.Data,
+				ctx.CCReq,
+				ParseCCResponseDirectives(ctx.Stored.Data.Header),
+			) {
 			_ = r.rs.StoreResponse(
 				req,
 				ctx.Stored.Data,
